@@ -74,8 +74,24 @@ structure Tracker where
   user    : User
 deriving DecidableEq, Repr
 
+/-- One durable write: a statement (or an explicit transaction) that sqlite has committed. The
+tower's database is the result of applying these one after the other; a crash keeps a prefix. -/
+inductive DbWrite where
+  | storeUser (u : User) (i : UserInfo)
+  | updateUser (u : User) (i : UserInfo)
+  | storeAppt (k : Uuid) (a : Appt)
+  | updateAppt (k : Uuid) (a : Appt)
+  | storeTracker (k : Uuid) (t : Tracker)
+  | updateTracker (k : Uuid) (st : CStatus)
+  /-- `DELETE FROM appointments …` and, in the same transaction, the refunded balances -/
+  | removeAppts (ks : List Uuid) (balances : List (User × Nat))
+  | removeUsers (us : List User)
+  | lastKnown (b : Nat)
+deriving Repr
+
 /-- The sqlite file. Tables are functions; the key lists over-approximate the live keys (a key
-is appended when first inserted and never removed) so that iteration = filter over the list. -/
+is appended when first inserted and never removed) so that iteration = filter over the list.
+`log` is ghost: the durable writes committed so far, in order. -/
 structure Db where
   users     : User → Option UserInfo
   appts     : Uuid → Option Appt
@@ -83,10 +99,11 @@ structure Db where
   userKeys  : List User
   apptKeys  : List Uuid
   lastKnown : Option Nat
+  log       : List DbWrite := []
 
 def Db.empty : Db :=
   { users := fun _ => none, appts := fun _ => none, trackers := fun _ => none,
-    userKeys := [], apptKeys := [], lastKnown := none }
+    userKeys := [], apptKeys := [], lastKnown := none, log := [] }
 
 /-- replies of bitcoind to `sendrawtransaction` (transport errors are the subject of C12) -/
 inductive SendReply where
